@@ -45,9 +45,30 @@ INPLACE_FAMILY = {
 }
 
 
+# FRAME obligations (the key of every memoised method covers the state it reads) shared with the properties whose
+# measures live in these classes: a stale memoised value is a wrong value of the measure
+FRAME_FAMILY = {
+    "C02": ("Network", "InteractingNetworks"),
+    "C03": ("Network",),
+    "C04": ("Network", "InteractingNetworks", "GeoNetwork", "SpatialNetwork", "ResNetwork"),
+    "C11": ("InteractingNetworks",),
+    "C12": ("Grid", "GeoGrid"),
+    "C18": ("ResNetwork",),
+    "C08": ("RecurrencePlot", "CrossRecurrencePlot", "JointRecurrencePlot"),
+    "C15": ("Surrogates",),
+}
+
+
 def structural(prop, extra):
     out = []
     extras = set((extra or "").split("+"))
+    if prop in FRAME_FAMILY and "NOP" not in extras:
+        fr, _rep, _prog = _frame()
+        for o in fr:
+            if o["kind"] == "FRAME" and o["id"].split("/")[2].split(".")[0] in FRAME_FAMILY[prop]:
+                o2 = dict(o)
+                o2["id"] = o["id"].replace("C01/", prop + "/", 1)
+                out.append(o2)
     if prop in INPLACE_FAMILY and "NOP" not in extras:
         fam = INPLACE_FAMILY[prop]
         for o in inplace_obligations() + [x for x in fieldframe_obligations() if not x["id"].endswith("/inventory")]:
